@@ -123,6 +123,57 @@ func runC13(c *core.Ctx) {
 	c13Resign(c)
 	c13HeldOutputs(c)
 	c13PeerShapes(c)
+	c13MethodNearMisses(c)
+	c13LogoutNameIDs(c)
+}
+
+// c13NameID is the name identifier the LogoutRequest cases ask to log out.
+var c13NameID = "alice@example.com"
+
+// c13LogoutNameIDs: signed LogoutRequests for name identifiers with characters XML serialisation treats specially: the signature verifies
+// over the element a receiver parses, and the name it reads there is the one given.
+func c13LogoutNameIDs(c *core.Ctx) {
+	c.Group("logout-request-name-ids")
+	ids := []string{"EXAMPLE\\ross\r", "a\r\nb", "a\nb", "\ta b ", " lead and trail ", "q\"uote'<>&amp;", "é\u2028\U0001F600", "]]>", "<!-- c -->", "a\u0085b", "x&#13;y"}
+	for _, km := range [][2]string{{"sp2048", dsig.RSASHA256SignatureMethod}, {"spec256", dsig.ECDSASHA256SignatureMethod}} {
+		for ni, id := range ids {
+			for _, msg := range []string{"logoutreq-post", "logoutreq-redirect"} {
+				km, id, msg := km, id, msg
+				key := fmt.Sprintf("logout-nameid/key=%s/id=%d/%s", km[0], ni, msg)
+				c.Case(key, func(t *core.T) {
+					t.NonTrivial()
+					c13NameID = id
+					defer func() { c13NameID = "alice@example.com" }()
+					sp := harness.NewSP(harness.SPOpt{SPKey: km[0], SignMethod: km[1]})
+					c13Emit(t, sp, km[0], km[1], msg, "rs", key)
+				})
+			}
+		}
+	}
+}
+
+// c13MethodNearMisses: configured signature-method strings that are almost one of the eight URIs (blanks around it, other letter case, a
+// character more or less): either the constructor refuses, or the message names a real method and verifies - never a message whose SigAlg
+// / SignatureMethod no relying party knows.
+func c13MethodNearMisses(c *core.Ctx) {
+	c.Group("signature-method-near-misses")
+	for _, km := range [][2]string{{"sp2048", dsig.RSASHA256SignatureMethod}, {"sp2048", dsig.RSASHA1SignatureMethod}, {"spec256", dsig.ECDSASHA256SignatureMethod}} {
+		b := km[1]
+		forms := []string{b + "\n", " " + b, b + " ", "\t" + b + "\r\n", strings.ToUpper(b), b + "#", b[:len(b)-1], b + "/", strings.Replace(b, "http://", "https://", 1), b + "\x00", "\u00a0" + b}
+		for fi, m := range forms {
+			for _, msg := range c13Messages {
+				for ri, relay := range []string{"", "rs"} {
+					km, m, msg, relay := km, m, msg, relay
+					key := fmt.Sprintf("method-near-miss/key=%s/base=%s/form=%d/%s/relay=%d", km[0], shortAlg(b), fi, msg, ri)
+					c.Case(key, func(t *core.T) {
+						t.NonTrivial()
+						sp := harness.NewSP(harness.SPOpt{SPKey: km[0], SignMethod: m})
+						c13Emit(t, sp, km[0], m, msg, relay, key)
+					})
+				}
+			}
+		}
+	}
 }
 
 // c13EndpointQueries are query strings an IdP endpoint Location may carry already; most of them are not byte-identical to their re-encoded
@@ -400,8 +451,23 @@ func c13Emit(t *core.T, sp *saml.ServiceProvider, kn, method, msg, relay, key st
 func c13EmitHold(t *core.T, sp *saml.ServiceProvider, kn, method, msg, relay, key string, hold *[]func()) {
 	kp := samlgen.Key(kn)
 	_, isRSA := kp.Cert.PublicKey.(*rsa.PublicKey)
-	fits := (isRSA && strings.Contains(method, "#rsa-")) || (!isRSA && strings.Contains(method, "#ecdsa-"))
+	known := func(m string) bool {
+		for _, k := range c13Methods[:8] {
+			if k == m {
+				return true
+			}
+		}
+		return false
+	}
+	family := func(m string) bool {
+		return (isRSA && strings.Contains(m, "#rsa-")) || (!isRSA && strings.Contains(m, "#ecdsa-"))
+	}
+	fits := known(method) && family(method)
+	// a configured value that is a known URI with blanks around it: refusing it is right, and so is signing with the URI meant - but then
+	// what is emitted names that URI, exactly
+	near := !known(method) && known(strings.TrimSpace(method)) && family(strings.TrimSpace(method))
 	fk := func(k string) string { return "C13/" + msg + "/" + k }
+	nameID := c13NameID
 
 	var u *url.URL
 	var page []byte
@@ -414,9 +480,9 @@ func c13EmitHold(t *core.T, sp *saml.ServiceProvider, kn, method, msg, relay, ke
 		case "authn-post":
 			page, err = sp.MakePostAuthenticationRequest(relay)
 		case "logoutreq-redirect":
-			u, err = sp.MakeRedirectLogoutRequest("alice@example.com", relay)
+			u, err = sp.MakeRedirectLogoutRequest(c13NameID, relay)
 		case "logoutreq-post":
-			page, err = sp.MakePostLogoutRequest("alice@example.com", relay)
+			page, err = sp.MakePostLogoutRequest(c13NameID, relay)
 		case "logoutresp-redirect":
 			u, err = sp.MakeRedirectLogoutResponse("id-given", relay)
 		case "logoutresp-post":
@@ -437,6 +503,16 @@ func c13EmitHold(t *core.T, sp *saml.ServiceProvider, kn, method, msg, relay, ke
 			t.Fail(fk("panic@"+p[strings.LastIndex(p, "@")+1:]), "panicked: %s", p)
 			return
 		}
+		if near {
+			if err != nil {
+				t.Modelled(core.DontCare)
+				t.Outcome("refused")
+				return
+			}
+			t.Modelled(core.DontCare)
+			method = strings.TrimSpace(method)
+			fits = true
+		}
 		if !fits {
 			t.Modelled(core.MustReject)
 			t.Outcome("refused")
@@ -445,7 +521,9 @@ func c13EmitHold(t *core.T, sp *saml.ServiceProvider, kn, method, msg, relay, ke
 			}
 			return
 		}
-		t.Modelled(core.MustAccept)
+		if !near {
+			t.Modelled(core.MustAccept)
+		}
 		if err != nil {
 			t.Fail(fk("constructor-error"), "method %s with key %s: %v", method, kn, err)
 			return
@@ -578,6 +656,15 @@ func c13EmitHold(t *core.T, sp *saml.ServiceProvider, kn, method, msg, relay, ke
 		}
 		if alg != method {
 			t.Fail(fk("xml-signature-method"), "SignatureMethod %q, configured %q", alg, method)
+		}
+		if strings.HasPrefix(msg, "logoutreq") {
+			got := ""
+			if n := findNS(el, samlgen.NSAssertion, "NameID"); len(n) == 1 {
+				got = n[0].Text()
+			}
+			if got != nameID {
+				t.Fail(fk("name-id-altered"), "the signed LogoutRequest names %+q, the call named %+q", got, nameID)
+			}
 		}
 		_ = certs
 		_ = time.Now
